@@ -148,6 +148,8 @@ def judge(out, df, r, p, case):
         v = r["elterngeld_m"].to_numpy().astype(float)
         born = list(zip(df["hh_id"].tolist(), df["geburtsjahr"].tolist(), df["geburtsmonat"].tolist(), df["geburtstag"].tolist(), df["alter"].tolist()))
         for i in range(len(df)):
+            if v[i] <= hb + eps:
+                continue
             babies = [b for b in born if b[0] == born[i][0] and b[4] <= 3]
             multiples = max([sum(1 for c in babies if c[1:4] == b[1:4]) for b in babies], default=1)
             cap = hb + sib + eg.get("mehrlingbonus", 300.0) * max(multiples - 1, 0)
@@ -188,8 +190,58 @@ def task(arg):
     out.sample({"date": date_iso, "cases": [l for l, _ in items[:3]]}, limit=1)
     return out.dump()
 
+def task_lattice(arg):
+    """One single-person household per wage on a 5 EUR lattice from 0 to above the highest assessment ceiling (plus every boundary of the
+    contribution rules +- 0.01 / 1 EUR / 1 ulp), for 0-5 children under 25, both regions and two ages: all nodes, same judgement."""
+    from mc.checks import c19
+
+    date_iso, ost, kids, age, step = arg
+    out = Partial()
+    year = int(date_iso[:4])
+    p, f = harness.env(date_iso)
+    cc = "ges_pflegev_anz_kinder_bis_24" in f
+    if kids > 1 and not cc:
+        return out.dump()
+    label = f"wage-lattice-{'east' if ost else 'west'}-{kids}-children-age-{age}"
+    case = {"date": date_iso, "label": label, "lattice": {"ost": ost, "kids": kids, "age": age, "step": step}}
+    try:
+        pre = sim.sim(c19.build([1000.0], year, ost, kids, cc, age), date_iso, targets=["minijob_grenze"])
+        wages, _b = c19.lattice(p, ost, step, float(pre["minijob_grenze"].iloc[0]))
+        df = c19.build(wages, year, ost, kids, cc, age)
+        r = sim.sim_all(df, date_iso)
+    except Exception as e:  # noqa: BLE001
+        if sim.known_crash(date_iso, e):
+            out.count("sims_skipped_known_C08_crash")
+        else:
+            out.violation(f"simulation-raises:{type(e).__name__}:{str(e)[:40]}", case, repr(e)[:300])
+        return out.dump()
+    out.step()
+    out.state((date_iso, label))
+    out.add_states(len(wages))
+    judge(out, df, r, p, case)
+    # every contribution an employee or employer pays, not only the default targets; the Midijob helper nodes only where they apply
+    zone = r["in_gleitzone"].to_numpy().astype(bool) if "in_gleitzone" in r.columns else np.zeros(len(df), dtype=bool)
+    for c in r.columns:
+        final = not c.startswith("_") and c.endswith(("_beitr_arbeitnehmer_m", "_beitr_arbeitgeber_m"))
+        midi = "_midijob_" in c and c.endswith("_m")
+        if not (final or midi):
+            continue
+        v = r[c].to_numpy().astype(float)
+        bad = (v < -1e-9) & (zone if midi else True)
+        if bad.any():
+            i = int(np.argmax(bad))
+            out.violation(f"negative:{c}", {**case, "column": c, "row": i, "wage": float(wages[i]), "value": float(v[i])},
+                          f"{c} = {v[i]} at a wage of {wages[i]} ({label}, {date_iso})")
+    out.sample({"date": date_iso, "label": label, "rows": len(wages)}, limit=1)
+    return out.dump()
+
 
 def replay(case):
+    if "lattice" in case:
+        la = case["lattice"]
+        part = task_lattice((case["date"], la["ost"], la["kids"], la["age"], la["step"]))
+        v = part["violations"]
+        return not v, "; ".join(x[2] for x in v[:3])
     df = popgen.frame(case["rows"])
     p, _ = harness.env(case["date"])
     r = sim.sim_all(df, case["date"])
@@ -227,7 +279,11 @@ def run(tier):
                 tasks.append((d, items[k : k + 25]))
     for part in harness.pmap(task, harness.rotate(tasks)):
         rep.merge(part)
-    rep.bound = {"dates": dates, "deviation_dates": dev_dates, "ages": "0-100", "children": "0-10", "incomes": "0 .. 1e7", "wealth": "0 .. 1e8"}
+    lat = [(d, ost, kids, age, 1.0 if thorough else 5.0) for d in (dates if thorough else dates[-3:]) for ost in (False, True) for kids in (0, 1, 2, 3, 5)
+           for age in (22, 40)]
+    for part in harness.pmap(task_lattice, harness.rotate(lat)):
+        rep.merge(part)
+    rep.bound = {"wage_lattice": {"step": 1.0 if thorough else 5.0, "children": [0, 1, 2, 3, 5], "ages": [22, 40], "dates": sorted({x[0] for x in lat})},"dates": dates, "deviation_dates": dev_dates, "ages": "0-100", "children": "0-10", "incomes": "0 .. 1e7", "wealth": "0 .. 1e8"}
     rep.assumptions = ["caps are read from the parameters of the date: employee pension/unemployment contribution <= rate x ceiling; health/care "
                        "contribution <= 2 x full rate x ceiling (wage or self-employment income and pension are assessed separately) and <= employee "
                        "rate x ceiling for plain employees; Elterngeld <= maximum + sibling bonus (larger of percentage and minimum) + one multiple-birth bonus per further child born the same day"]
